@@ -46,9 +46,9 @@ def _lock(kinds, prop):
 
 
 PROPERTIES = {
-    'C16': dict(units=ENGINES_SCORES + ['interference'], extra=[_lock(['cell'], 'C16')],
+    'C16': dict(units=ENGINES_SCORES + ['interference'] + WRAPPERS, extra=[_lock(['cell'], 'C16')],
                 explanation='panic freedom of every extracted engine function (overflow, indexing, unwrap, callee preconditions such as rand_below(n > 0)) proved by Verus, '
-                            'plus RefCell guard-liveness obligations on the original thread_local_cache.rs (no borrow_mut while a borrow of the same cell is live); unit interference: the global lookup/store paths and the async lookup/insert path stay panic-free and terminate even when every lock acquisition / DashMap operation sees arbitrarily changed data (concurrent interference)',
+                            'the wrapper tails and invalidation callbacks the macros emit for the fixture corpus (unwrap, indexing, callee preconditions), plus RefCell guard-liveness obligations on the original thread_local_cache.rs (no borrow_mut while a borrow of the same cell is live); unit interference: the global lookup/store paths and the async lookup/insert path stay panic-free and terminate even when every lock acquisition / DashMap operation sees arbitrarily changed data (concurrent interference)',
                 assumptions=['limit >= 1 where the async engine requires it; counters unsaturated; totals fit usize', 'user closures / estimators / Debug impls do not panic']),
     'C20': dict(units=['async_cache', 'wrappers_async', 'wrappers_async_await'], extra=[_lock(['await'], 'C20'), _preawait('C20')],
                 explanation='on the real #[cache_async] expansions: no lock / DashMap guard is live at the .await (guard-liveness obligations), the only cache operation before the awaited body is the lookup, and the lookup never adds an entry and leaves the representation invariant intact (engine contract of get); after the await the store is the ordinary insert (last store wins, exact eviction); engine methods return owned values; unit wrappers_async_await: the same expansions with ARBITRARY interference (any store / queue / statistics contents satisfying the representation invariant, same configuration) injected at the .await: the resumed call still stores exactly its own result under its own key, runs the body at most once, and a hit is served before any suspension',
